@@ -1616,13 +1616,30 @@ impl<'a> Run<'a> {
         ];
         for op in ops { if !self.op(op) { return false } }
         self.pump(&[]);
+        if !self.op(Op::AddCa { ca: "q".into(), parent: "ta".into(),
+            asn: "AS65040-AS65047".into(), v4: "10.0.0.0/8".into(),
+            v6: "".into() }) { return false }
+        self.pump(&[]);
         for c in self.cas.clone() {
-            if c.name == "p" { continue }
+            if c.name == "p" || c.name == "q" { continue }
             if !self.op(Op::AddCa {
                 ca: c.name.clone(), parent: "p".into(), asn: c.asn.clone(),
                 v4: c.v4(), v6: "".into(),
             }) { return false }
             self.pump(&[]);
+        }
+        // `cur` gets a second resource class from q
+        if !self.op(Op::AddParent { ca: "cur".into(), parent: "q".into(),
+            asn: "AS65044-AS65045".into(), v4: "10.50.0.0/16".into(),
+            v6: "".into() }) { return false }
+        self.pump(&[]);
+        {
+            let s = "10.50.0.0/24 => 65044".to_string();
+            let i = self.ca_idx("cur");
+            self.cas[i].roas.push(s.clone());
+            if !self.op(Op::RoaDelta {
+                ca: "cur".into(), add: vec![s], remove: vec![]
+            }) { return false }
         }
         for c in self.cas.clone() {
             let base = format!("10.{}.0.0/24 => {}", c.net, c.asn0);
@@ -1886,6 +1903,10 @@ fn run_scenario(r: &mut Report, args: &Args, scn: Scn) {
         cas: vec![
             CaModel { asn: "AS65012-AS65015".into(),
                       ..CaModel::new("p", 200, 65012) },
+            // a second parent for `cur`, so that one CA has two resource
+            // classes whose manifests fall due at different times
+            CaModel { asn: "AS65040-AS65047".into(),
+                      ..CaModel::new("q", 210, 65040) },
             CaModel::new("cur", 0, 65000),
             CaModel::new("stg", 1, 65004),
             CaModel::new("old", 2, 65008),
